@@ -49,15 +49,15 @@ Qed.
 (* ---------- flush and cache lookup against their specifications ---------- *)
 Lemma deliver_spec b sk t s : tgt b = t -> nth_error sk t = Some s ->
   exists s' b', deliver b sk = (set_nth t s' sk, b', err b') /\ tgt b' = t /\ tgtB b' = tgtB b /\ scap s' = scap s /\
-    lflush (scap s) (sout s) (sbb s) (content b) (err b) (tgtB b) = (content b', err b', sout s', sbb s').
+    lflush (scap s) (sout s) (sbb s) (spend s) (content b) (err b) (tgtB b) = (content b', err b', sout s', sbb s', spend s').
 Proof.
   intros Ht Hs. unfold deliver, lflush. destruct (err b) eqn:E.
   - exists s, b. rewrite (set_nth_same _ _ _ Hs), E. repeat split; assumption.
   - rewrite Ht, Hs. destruct (tgtB b) eqn:B.
-    + exists {| sout := sout s; scap := scap s; sbb := sbb s ++ content b |}, {| content := []; err := false; tgt := t; tgtB := true |}.
+    + exists (smk (sout s) (scap s) (sbb s ++ content b) (spend s)), {| content := []; err := false; tgt := t; tgtB := true |}.
       cbn; repeat split; reflexivity.
-    + destruct (sink_write (scap s) (sout s) (content b)) as [o' rest].
-      exists {| sout := o'; scap := scap s; sbb := sbb s |}, {| content := rest; err := negb (nilb rest); tgt := t; tgtB := false |}.
+    + destruct (dest_write (scap s) (sout s) (spend s) (content b)) as [[o' pd'] rest].
+      exists (smk o' (scap s) (sbb s) pd'), {| content := rest; err := negb (nilb rest); tgt := t; tgtB := false |}.
       cbn; repeat split; reflexivity.
 Qed.
 
@@ -90,6 +90,7 @@ Record inv (fs : fsys) (w : world) : Prop := {
   i_poolB : forall c, In c (poolB w) -> c = [];
   i_bb : forall t th s, nth_error (threads w) t = Some th -> nth_error (sinks w) t = Some s -> bown th = Some true -> sbb s = [];
   i_cache : coherent fs (cache w);
+  i_reg : forall t th, nth_error (threads w) t = Some th -> exists l, reg th = Some l;
   i_ids_le : forall t th x, nth_error (threads w) t = Some th -> In x (ids th) -> (x <= ctr w)%N;
   i_ids_nodup : forall t th, nth_error (threads w) t = Some th -> NoDup (ids th);
   i_ids_excl : forall t1 t2 th1 th2 x, nth_error (threads w) t1 = Some th1 -> nth_error (threads w) t2 = Some th2 ->
@@ -116,7 +117,8 @@ Definition shape (fs : fsys) (w w' : world) (t : nat) : Prop :=
     \/ (bown th' = Some true /\ sbb s' = [] /\ poolB w' = poolB w)
     \/ (bown th = Some true /\ bown th' = None /\ poolB w' = sbb s :: poolB w) ) /\
     (cache w' = cache w \/ exists f now, cache w' = snd (cache_lookup fs now (cache w) f)) /\
-    ((ctr w' = ctr w /\ ids th' = ids th) \/ (ctr w' = (ctr w + 1)%N /\ ids th' = (ctr w + 1)%N :: ids th)).
+    ((ctr w' = ctr w /\ ids th' = ids th) \/ (ctr w' = (ctr w + 1)%N /\ ids th' = (ctr w + 1)%N :: ids th)) /\
+    (exists l, reg th' = Some l).
 
 Ltac step_cases H :=
   repeat match type of H with
@@ -125,6 +127,7 @@ Ltac step_cases H :=
       | deliver _ _ => fail 1
       | cache_lookup _ _ _ _ => fail 1
       | sink_write _ _ _ => fail 1
+      | dest_write _ _ _ _ => fail 1
       | _ => destruct x eqn:?; try discriminate H
       end
   end.
@@ -154,6 +157,7 @@ Ltac use_deliver Hs H :=
 Ltac use_lets H :=
   repeat match type of H with
   | context [cache_lookup ?a ?b ?c ?d] => let E := fresh "Hcl" in destruct (cache_lookup a b c d) as [?res ?ca'] eqn:E
+  | context [dest_write ?a ?b ?c ?d] => let E := fresh "Hdw" in destruct (dest_write a b c d) as [[?out' ?pd'] ?rest] eqn:E
   | context [sink_write ?a ?b ?c] => let E := fresh "Hsw" in destruct (sink_write a b c) as [?out' ?rest] eqn:E
   | context [pick_pool ?a ?b] => let E := fresh "Hpp" in destruct (pick_pool a b) as [[? ?]|] eqn:E; [apply pick_pool_some in E as (?k & ?Hk & ?Hrm)|]
   end.
@@ -176,24 +180,25 @@ Ltac shapeD := first [left; split; reflexivity | right; split; reflexivity].
 
 Ltac leaf Hth Hs H :=
   inversion H; subst; clear H;
-  unfold shape; cbn [heap poolA poolB cache ctr threads sinks wmk];
+  unfold shape; cbn [heap poolA poolB cache ctr mwss threads sinks wmk];
   eexists; eexists; eexists; eexists;
   split; [exact Hth|]; split; [exact Hs|];
   split; [reflexivity|];
   split; [first [reflexivity | symmetry; apply set_nth_same; exact Hs]|];
-  cbn [own bown ids tmk sbb];
-  split; [shapeA|]; split; [shapeB|]; split; [shapeC|shapeD].
+  cbn [own bown ids reg tmk sbb smk];
+  split; [shapeA|]; split; [shapeB|]; split; [shapeC|]; split; [shapeD|eexists; reflexivity].
 
 Lemma step_shape fs w t pick now w' : inv fs w -> step real fs w (t, pick, now) = Some w' -> shape fs w w' t.
 Proof.
-  intros I H. destruct w as [hp pa pb ca cn ts sk].
+  intros I H. destruct w as [hp pa pb ca cn ms ts sk].
   destruct (nth_error ts t) as [th|] eqn:Hth; [|unfold step in H; rewrite Hth in H; discriminate].
   assert (Hs : exists s, nth_error sk t = Some s).
   { destruct (nth_error sk t) eqn:E; [eexists; reflexivity|]. apply nth_error_None in E.
     pose proof (i_len _ _ I) as L. cbn in L. assert (t < length ts) by (apply nth_error_Some; congruence). lia. }
   destruct Hs as [s Hs].
-  destruct th as [o bo cx is fl p].
-  unfold step in H. rewrite Hth, ?Hs in H. cbn [real reset_on_get reset_on_put flush_before_put] in H.
+  destruct th as [o bo cx rg is fl p].
+  destruct (i_reg _ _ I _ _ Hth) as [rl Hrl]; cbn [reg] in Hrl; subst rg.
+  unfold step in H. rewrite Hth, ?Hs in H. cbn [real reset_on_get reset_on_put flush_before_put fresh_registry reg_get] in H.
   step_cases H.
   all: own_fact I Hth.
   all: use_deliver Hs H.
@@ -216,7 +221,7 @@ Qed.
 
 Lemma shape_inv fs w w' t : inv fs w -> shape fs w w' t -> inv fs w'.
 Proof.
-  intros I (th & th' & s & s' & Hth & Hs & HT & HS & A & B & C & D).
+  intros I (th & th' & s & s' & Hth & Hs & HT & HS & A & B & C & D & RG).
   assert (LH : length (heap w) <= length (heap w')).
   { destruct A as [(E&_)|[(i&ph&ph'&b'&_&_&_&E&_)|[(_&_&(fb&E)&_)|[(k&i&_&_&_&_&E)|(i&ph&_&_&_&E)]]]]; rewrite E; try lia.
     - rewrite length_set_nth; lia. - rewrite app_length; cbn; lia. }
@@ -272,7 +277,8 @@ Proof.
     + destruct B as [(_&E&[N|E2])|[(E&_)|[(_&E&_)|(_&E&_)]]]; try congruence.
       * rewrite E2. apply (i_bb _ _ I _ _ _ Hth Hs). congruence.
     + apply (i_bb _ _ I _ _ _ Hu' Hsu' Bu).
-  - destruct C as [E|(f&now&E)]; rewrite E; [apply (i_cache _ _ I)|apply cache_lookup_spec; apply (i_cache _ _ I)].
+  - destruct C as [EC|(f&now&EC)]; rewrite EC; [apply (i_cache _ _ I)|apply cache_lookup_spec; apply (i_cache _ _ I)].
+  - intros u thu Hu. rewrite HT in Hu. destruct (nth_set_cases _ _ _ _ _ _ Hth Hu) as [[-> ->]|[Hne Hu']]; [exact RG|apply (i_reg _ _ I _ _ Hu')].
   - intros u thu x Hu Hx. rewrite HT in Hu. destruct (nth_set_cases _ _ _ _ _ _ Hth Hu) as [[-> ->]|[Hne Hu']].
     + destruct D as [(E1&E2)|(E1&E2)]; rewrite E1; rewrite E2 in Hx.
       * apply (i_ids_le _ _ I _ _ _ Hth Hx).
@@ -298,6 +304,7 @@ Proof.
   intros I (th & th' & s & s' & Hth & Hs & HT & HS & A & _) u Hne.
   unfold view. rewrite HT, HS, !nth_error_set_nth_neq by congruence.
   destruct (nth_error (threads w) u) as [thu|] eqn:Hu; [|reflexivity].
+  destruct (i_reg _ _ I _ _ Hu) as [lu Hlu]; rewrite Hlu; cbn [reg_get].
   destruct (nth_error (sinks w) u) as [su|] eqn:Hsu; [|reflexivity].
   destruct (own thu) as [[j ph]|] eqn:Ou; [|reflexivity].
   destruct (i_own _ _ I _ _ _ _ Hu Ou) as (Hlt & _ & _).
@@ -318,11 +325,11 @@ Ltac rw_lookups Hth Hs :=
 
 Ltac sim_leaf Hth Hs H :=
   inversion H; subst; clear H;
-  unfold view; cbn [heap poolA poolB cache ctr threads sinks wmk];
-  rw_lookups Hth Hs; cbn [own bown ctx ids failed prog tmk phase_flushed sbb sout scap content err tgtB with_content length];
-  rw_lookups Hth Hs; cbn [own bown ctx ids failed prog tmk phase_flushed sbb sout scap content err tgtB with_content length];
+  unfold view; cbn [heap poolA poolB cache ctr mwss threads sinks wmk];
+  rw_lookups Hth Hs; cbn [own bown ctx reg reg_get ids failed prog tmk phase_flushed sbb sout scap spend smk content err tgtB with_content length];
+  rw_lookups Hth Hs; cbn [own bown ctx reg reg_get ids failed prog tmk phase_flushed sbb sout scap spend smk content err tgtB with_content length];
   eexists; eexists; split; [reflexivity|]; split; [reflexivity|];
-  cbn [lstep lmk l_buf l_bb l_bbc l_out l_cap l_ctx l_nids l_failed l_prog];
+  cbn [lstep lmk l_buf l_bb l_bbc l_out l_cap l_ctx l_ss l_pend l_nids l_failed l_prog];
   repeat match goal with
          | Hq : ?x = _ |- context [?x] => rewrite Hq
          end;
@@ -331,14 +338,15 @@ Ltac sim_leaf Hth Hs H :=
 Lemma step_sim fs w t pick now w' : inv fs w -> step real fs w (t, pick, now) = Some w' ->
   exists v v', view w t = Some v /\ view w' t = Some v' /\ lstep fs v = Some v'.
 Proof.
-  intros I H. destruct w as [hp pa pb ca cn ts sk].
+  intros I H. destruct w as [hp pa pb ca cn ms ts sk].
   destruct (nth_error ts t) as [th|] eqn:Hth; [|unfold step in H; rewrite Hth in H; discriminate].
   assert (Hs : exists s, nth_error sk t = Some s).
   { destruct (nth_error sk t) eqn:E; [eexists; reflexivity|]. apply nth_error_None in E.
     pose proof (i_len _ _ I) as L. cbn in L. assert (t < length ts) by (apply nth_error_Some; congruence). lia. }
   destruct Hs as [s Hs].
-  destruct th as [o bo cx is fl p].
-  unfold step in H. rewrite Hth, ?Hs in H. cbn [real reset_on_get reset_on_put flush_before_put] in H.
+  destruct th as [o bo cx rg is fl p].
+  destruct (i_reg _ _ I _ _ Hth) as [rl Hrl]; cbn [reg] in Hrl; subst rg.
+  unfold step in H. rewrite Hth, ?Hs in H. cbn [real reset_on_get reset_on_put flush_before_put fresh_registry reg_get] in H.
   step_cases H.
   all: own_fact I Hth.
   all: use_deliver Hs H.
@@ -385,18 +393,18 @@ Qed.
 
 (* the start: any heap of old Buffers, any of them pooled (stale bytes, stale sticky errors, stale Underlying),
    any number of empty bytes.Buffers pooled, any cache that agrees with the files, any counter value *)
-Definition start (hp : list buf) (pa : list nat) (pb : list bytes) (ca : list (N * centry)) (cn : N) (progs : list (list act * nat)) : world :=
-  wmk hp pa pb ca cn (init_threads progs) (init_sinks progs).
+Definition start (hp : list buf) (pa : list nat) (pb : list bytes) (ca : list (N * centry)) (cn : N) (ms : list N) (progs : list (list act * nat)) : world :=
+  wmk hp pa pb ca cn ms (init_threads progs) (init_sinks progs).
 Definition start_ok (fs : fsys) (hp : list buf) (pa : list nat) (pb : list bytes) (ca : list (N * centry)) : Prop :=
   NoDup pa /\ (forall i, In i pa -> i < length hp) /\ (forall c, In c pb -> c = []) /\ coherent fs ca.
 
-Lemma init_thread_nth progs t th : nth_error (init_threads progs) t = Some th -> exists pc, nth_error progs t = Some pc /\ th = tmk None None [] [] false (fst pc).
+Lemma init_thread_nth progs t th : nth_error (init_threads progs) t = Some th -> exists pc, nth_error progs t = Some pc /\ th = tmk None None [] (Some []) [] false (fst pc).
 Proof.
   unfold init_threads. rewrite nth_error_map. destruct (nth_error progs t) as [pc|]; [|discriminate].
   intros H; inversion H. exists pc. split; reflexivity.
 Qed.
 
-Lemma start_inv fs hp pa pb ca cn progs : start_ok fs hp pa pb ca -> inv fs (start hp pa pb ca cn progs).
+Lemma start_inv fs hp pa pb ca cn ms progs : start_ok fs hp pa pb ca -> inv fs (start hp pa pb ca cn ms progs).
 Proof.
   intros (N1 & N2 & N3 & N4). constructor; cbn.
   - unfold init_sinks, init_threads. rewrite !map_length. reflexivity.
@@ -407,18 +415,19 @@ Proof.
   - exact N3.
   - intros t th s H _ B. apply init_thread_nth in H as (pc & _ & ->). discriminate.
   - exact N4.
+  - intros t th H. apply init_thread_nth in H as (pc & _ & ->). eexists; reflexivity.
   - intros t th x H X. apply init_thread_nth in H as (pc & _ & ->). destruct X.
   - intros t th H. apply init_thread_nth in H as (pc & _ & ->). constructor.
   - intros t1 t2 th1 th2 x H _ X. apply init_thread_nth in H as (pc & _ & ->). destruct X.
 Qed.
 
-Lemma start_view hp pa pb ca cn progs t p cap : nth_error progs t = Some (p, cap) -> view (start hp pa pb ca cn progs) t = Some (linit cap p).
+Lemma start_view hp pa pb ca cn ms progs t p cap : nth_error progs t = Some (p, cap) -> view (start hp pa pb ca cn ms progs) t = Some (linit cap p).
 Proof.
   intros H. unfold view, start. cbn. unfold init_threads, init_sinks. rewrite !nth_error_map, H. reflexivity.
 Qed.
 
-Theorem isolation fs hp pa pb ca cn progs sch w' :
-  start_ok fs hp pa pb ca -> exec real fs (start hp pa pb ca cn progs) sch = Some w' ->
+Theorem isolation fs hp pa pb ca cn ms progs sch w' :
+  start_ok fs hp pa pb ca -> exec real fs (start hp pa pb ca cn ms progs) sch = Some w' ->
   forall t p cap, nth_error progs t = Some (p, cap) ->
   exists v', view w' t = Some v' /\ lrun fs (steps_of t sch) (linit cap p) = Some v'.
 Proof.
@@ -433,16 +442,16 @@ Proof.
 Qed.
 
 (* a goroutine that has nothing left to do holds exactly what its renders produce alone *)
-Theorem finished_outputs fs hp pa pb ca cn progs sch w' :
-  start_ok fs hp pa pb ca -> exec real fs (start hp pa pb ca cn progs) sch = Some w' ->
+Theorem finished_outputs fs hp pa pb ca cn ms progs sch w' :
+  start_ok fs hp pa pb ca -> exec real fs (start hp pa pb ca cn ms progs) sch = Some w' ->
   forall t p cap th s, nth_error progs t = Some (p, cap) ->
   nth_error (threads w') t = Some th -> nth_error (sinks w') t = Some s ->
   prog th = [] -> own th = None -> bown th = None ->
   forall fuel, steps_of t sch <= fuel -> sout s = l_out (lfinal fs fuel (linit cap p)).
 Proof.
   intros OK H t p cap th s P T S Pr O B fuel L.
-  destruct (isolation _ _ _ _ _ _ _ _ _ OK H t p cap P) as (v' & V & R).
-  assert (E : v' = lmk None None (sbb s) (sout s) (scap s) (ctx th) (length (ids th)) (failed th) []).
+  destruct (isolation _ _ _ _ _ _ _ _ _ _ OK H t p cap P) as (v' & V & R).
+  assert (E : v' = lmk None None (sbb s) (sout s) (scap s) (ctx th) (reg_get (mwss w') (reg th)) (spend s) (length (ids th)) (failed th) []).
   { unfold view in V. rewrite T, S, O in V. inversion V. rewrite B, Pr. reflexivity. }
   rewrite (lrun_final _ _ _ _ _ R); [subst v'; reflexivity| subst v'; reflexivity | exact L].
 Qed.
@@ -475,35 +484,49 @@ Proof.
   - exfalso. apply Hne. apply nth_error_app1. exact Hlt.
 Qed.
 
-Theorem ownership_inv fs hp pa pb ca cn progs sch w' :
-  start_ok fs hp pa pb ca -> exec real fs (start hp pa pb ca cn progs) sch = Some w' ->
+Theorem ownership_inv fs hp pa pb ca cn ms progs sch w' :
+  start_ok fs hp pa pb ca -> exec real fs (start hp pa pb ca cn ms progs) sch = Some w' ->
   ownership w' /\
   forall t pick now w'', step real fs w' (t, pick, now) = Some w'' ->
     forall j, j < length (heap w') -> nth_error (heap w'') j <> nth_error (heap w') j -> owns w' t j.
 Proof.
-  intros OK H. pose proof (exec_inv _ _ _ _ (start_inv _ _ _ _ _ cn progs OK) H) as I. split.
+  intros OK H. pose proof (exec_inv _ _ _ _ (start_inv _ _ _ _ _ cn ms progs OK) H) as I. split.
   - eapply inv_ownership; exact I.
   - intros t pick now w'' S. eapply step_touches_own; eassumption.
 Qed.
 
+(* ---------- writers and context values of the other goroutines ---------- *)
+(* a step of goroutine t leaves every other goroutine's private state (context value: once handles, emitted classes and
+   scripts; handle ids; program) and every other goroutine's writer (bytes received, bytes held by its own bufio.Writer,
+   bytes.Buffer content) exactly as they were *)
+Theorem others_untouched fs hp pa pb ca cn ms progs sch w' :
+  start_ok fs hp pa pb ca -> exec real fs (start hp pa pb ca cn ms progs) sch = Some w' ->
+  forall t pick now w'', step real fs w' (t, pick, now) = Some w'' ->
+  forall u, u <> t -> nth_error (threads w'') u = nth_error (threads w') u /\ nth_error (sinks w'') u = nth_error (sinks w') u.
+Proof.
+  intros OK H t pick now w'' S u Hne. pose proof (exec_inv _ _ _ _ (start_inv _ _ _ _ _ cn ms progs OK) H) as I.
+  destruct (step_shape _ _ _ _ _ _ I S) as (th & th' & s & s' & _ & _ & HT & HS & _).
+  rewrite HT, HS. split; apply nth_error_set_nth_neq; congruence.
+Qed.
+
 (* ---------- the development-mode cache ---------- *)
-Theorem cache_linear fs hp pa pb ca cn progs sch w' :
-  start_ok fs hp pa pb ca -> exec real fs (start hp pa pb ca cn progs) sch = Some w' ->
+Theorem cache_linear fs hp pa pb ca cn ms progs sch w' :
+  start_ok fs hp pa pb ca -> exec real fs (start hp pa pb ca cn ms progs) sch = Some w' ->
   forall now f, fst (cache_lookup fs now (cache w') f) = fst (cache_lookup fs 0%N [] f).
 Proof.
-  intros OK H now f. pose proof (exec_inv _ _ _ _ (start_inv _ _ _ _ _ cn progs OK) H) as I.
+  intros OK H now f. pose proof (exec_inv _ _ _ _ (start_inv _ _ _ _ _ cn ms progs OK) H) as I.
   rewrite (proj1 (cache_lookup_spec fs now (cache w') f (i_cache _ _ I))).
   assert (C0 : coherent fs []) by (intros f0 e0 A; discriminate).
   rewrite (proj1 (cache_lookup_spec fs 0%N [] f C0)). reflexivity.
 Qed.
 
 (* ---------- once-handle ids ---------- *)
-Theorem once_handles_distinct fs hp pa pb ca cn progs sch w' :
-  start_ok fs hp pa pb ca -> exec real fs (start hp pa pb ca cn progs) sch = Some w' ->
+Theorem once_handles_distinct fs hp pa pb ca cn ms progs sch w' :
+  start_ok fs hp pa pb ca -> exec real fs (start hp pa pb ca cn ms progs) sch = Some w' ->
   forall t1 t2 th1 th2 i j x, nth_error (threads w') t1 = Some th1 -> nth_error (threads w') t2 = Some th2 ->
   nth_error (ids th1) i = Some x -> nth_error (ids th2) j = Some x -> t1 = t2 /\ i = j.
 Proof.
-  intros OK H t1 t2 th1 th2 i j x H1 H2 X1 X2. pose proof (exec_inv _ _ _ _ (start_inv _ _ _ _ _ cn progs OK) H) as I.
+  intros OK H t1 t2 th1 th2 i j x H1 H2 X1 X2. pose proof (exec_inv _ _ _ _ (start_inv _ _ _ _ _ cn ms progs OK) H) as I.
   assert (E : t1 = t2) by (eapply (i_ids_excl _ _ I); [exact H1|exact H2|eapply nth_error_In; exact X1|eapply nth_error_In; exact X2]).
   split; [exact E|]. subst t2. rewrite H1 in H2. inversion H2; subst th2.
   pose proof (i_ids_nodup _ _ I _ _ H1) as ND. rewrite NoDup_nth_error in ND. apply ND; [apply nth_error_Some; congruence|congruence].
@@ -522,9 +545,10 @@ Proof.
 Qed.
 
 (* ---------- what goes wrong in the variants ---------- *)
-Definition no_reset_on_get : config := {| reset_on_get := false; reset_on_put := true; flush_before_put := true |}.
-Definition no_reset_on_put : config := {| reset_on_get := true; reset_on_put := false; flush_before_put := true |}.
-Definition put_then_flush : config := {| reset_on_get := true; reset_on_put := true; flush_before_put := false |}.
+Definition no_reset_on_get : config := {| reset_on_get := false; reset_on_put := true; flush_before_put := true; fresh_registry := true |}.
+Definition no_reset_on_put : config := {| reset_on_get := true; reset_on_put := false; flush_before_put := true; fresh_registry := true |}.
+Definition put_then_flush : config := {| reset_on_get := true; reset_on_put := true; flush_before_put := false; fresh_registry := true |}.
+Definition shared_registry : config := {| reset_on_get := true; reset_on_put := true; flush_before_put := true; fresh_registry := false |}.
 
 Definition two_renders : list (list act * nat) := [(render [Write [x61]], 100); (render [Write [x62]], 100)].
 Definition two_handlers : list (list act * nat) := [(handler_render [Write [x61]], 100); (handler_render [Write [x62]], 100)].
@@ -535,7 +559,7 @@ Definition all_done (w : world) : bool := forallb (fun th => nilb (prog th) && n
 (* without Reset on acquisition: goroutine 1 renders "b", its Buffer goes back to the pool still pointing at goroutine 1's
    writer; goroutine 0 then renders "a" with that Buffer and its bytes land in goroutine 1's response *)
 Lemma isolation_needs_reset_on_get : exists sch w',
-  exec no_reset_on_get [] (start [] [] [] [] 0 two_renders) sch = Some w' /\ all_done w' = true /\
+  exec no_reset_on_get [] (start [] [] [] [] 0 [] two_renders) sch = Some w' /\ all_done w' = true /\
   souts w' = [[]; [x62; x61]] /\ alone_out [] 100 (render [Write [x61]]) = [x61].
 Proof.
   exists (run_of 1 None 6 ++ run_of 0 (Some 0) 6). eexists. split; [vm_compute; reflexivity|]. vm_compute. repeat split.
@@ -543,7 +567,7 @@ Qed.
 
 (* without Reset before Put of the bytes.Buffer: the next handler's response starts with the previous response *)
 Lemma isolation_needs_reset_on_put : exists sch w',
-  exec no_reset_on_put [] (start [] [] [] [] 0 two_handlers) sch = Some w' /\ all_done w' = true /\
+  exec no_reset_on_put [] (start [] [] [] [] 0 [] two_handlers) sch = Some w' /\ all_done w' = true /\
   souts w' = [[x62; x61]; [x62]] /\ alone_out [] 100 (handler_render [Write [x61]]) = [x61].
 Proof.
   exists (run_of 1 None 10 ++ run_of 0 (Some 0) 10). eexists. split; [vm_compute; reflexivity|]. vm_compute. repeat split.
@@ -552,12 +576,23 @@ Qed.
 (* Put before Flush: the Buffer is in the pool while goroutine 0 still uses it; goroutine 1 acquires it, and then
    (a) two goroutines hold the same Buffer, (b) goroutine 0's bytes are lost *)
 Lemma ownership_needs_flush_before_put : exists sch1 sch2 w1 w2,
-  exec put_then_flush [] (start [] [] [] [] 0 two_renders) sch1 = Some w1 /\ owns w1 0 0 /\ owns w1 1 0 /\
+  exec put_then_flush [] (start [] [] [] [] 0 [] two_renders) sch1 = Some w1 /\ owns w1 0 0 /\ owns w1 1 0 /\
   exec put_then_flush [] w1 sch2 = Some w2 /\ all_done w2 = true /\ souts w2 = [[]; [x62]].
 Proof.
   exists (run_of 0 None 5 ++ run_of 1 (Some 0) 2), (run_of 1 None 2 ++ run_of 0 None 1 ++ run_of 1 None 2). eexists. eexists.
   split; [vm_compute; reflexivity|]. split; [eexists; eexists; split; vm_compute; reflexivity|].
   split; [eexists; eexists; split; vm_compute; reflexivity|]. split; [vm_compute; reflexivity|]. vm_compute. split; reflexivity.
+Qed.
+
+(* a middleware that installs ONE map of its registered classes in every request's context value: two requests are past the
+   middleware before either renders; request 0 then emits the unregistered class 2, which marks it in the shared map, and
+   request 1's document comes out without the style element it has when served alone *)
+Definition two_mw_requests : list (list act * nat) := [(mw_render [1%N] [EmitOnce 2 [x73]], 100); (mw_render [1%N] [EmitOnce 2 [x73]], 100)].
+Lemma isolation_needs_fresh_registry : exists sch w',
+  exec shared_registry [] (start [] [] [] [] 0 [1%N] two_mw_requests) sch = Some w' /\ all_done w' = true /\
+  souts w' = [[x73]; []] /\ alone_out [] 100 (mw_render [1%N] [EmitOnce 2 [x73]]) = [x73].
+Proof.
+  exists (run_of 0 None 2 ++ run_of 1 None 2 ++ run_of 0 None 5 ++ run_of 1 (Some 0) 5). eexists. split; [vm_compute; reflexivity|]. vm_compute. repeat split.
 Qed.
 
 (* ---------- the hypotheses are satisfiable: a stale pool, a real interleaving ---------- *)
@@ -580,10 +615,28 @@ Proof.
 Qed.
 
 Lemma demo_run : exists sch w',
-  exec real demo_fs (start stale_heap [0] [[]] [] 41 demo_progs) sch = Some w' /\
+  exec real demo_fs (start stale_heap [0] [[]] [] 41 [] demo_progs) sch = Some w' /\
   souts w' = [ [x3c; x70; x3e; x61; x3c; x2f; x70; x3e]; [x62; x3c; x70; x3e]; [x63; x63] ] /\
   map ids (threads w') = [[43%N]; [42%N]; []] /\
   map (fun pc => alone_out demo_fs (snd pc) (fst pc)) demo_progs = souts w'.
 Proof.
   exists (round_robin 8 ++ run_of 0 None 3 ++ run_of 1 None 4). eexists. split; [vm_compute; reflexivity|]. vm_compute. repeat split.
+Qed.
+
+(* the same with requests behind the CSS middleware (class 1 registered), pages that emit an unregistered class twice, and a
+   goroutine that renders into its own bufio.Writer between a header and a trailer it writes itself *)
+Definition demo_progs2 : list (list act * nat) :=
+  [ (OwnWrap :: framed_render [x68] [x74] [EmitOnce 2 [x73]; EmitOnce 2 [x73]], 100);
+    (mw_handler_render [1%N] [EmitOnce 1 [x72]; EmitOnce 2 [x73]; EmitOnce 2 [x73]], 100);
+    (mw_render [1%N] [EmitOnce 2 [x73]], 100) ].
+Fixpoint rr3 (n : nat) : list (nat * option nat * N) :=
+  match n with O => [] | S k => [(0, Some 0, 0%N); (1, Some 0, 0%N); (2, Some 0, 0%N)] ++ rr3 k end.
+Fixpoint rr2 (n : nat) : list (nat * option nat * N) :=
+  match n with O => [] | S k => [(0, Some 0, 0%N); (1, Some 0, 0%N)] ++ rr2 k end.
+Lemma demo_run2 : exists sch w',
+  exec real [] (start stale_heap [0] [[]] [] 0 [] demo_progs2) sch = Some w' /\ all_done w' = true /\
+  souts w' = [ [x68; x73; x74]; [x73]; [x73] ] /\
+  map (fun pc => alone_out [] (snd pc) (fst pc)) demo_progs2 = souts w'.
+Proof.
+  exists (rr3 7 ++ rr2 4 ++ run_of 1 None 2). eexists. split; [vm_compute; reflexivity|]. vm_compute. repeat split.
 Qed.
